@@ -38,6 +38,12 @@ func (w *c05World) refreshEnv() {
 		e.Merkles = append(e.Merkles, f.Merkle)
 		e.Starts = append(e.Starts, f.Start)
 	}
+	// gauge accounts are ordinary addresses anybody can name (as a referrer, a receiver, a claimer ...) but nobody can sign for
+	for i, g := range w.c.App.StorageKeeper.GetAllPaymentGauges(w.f.Ctx) {
+		if i < 3 {
+			e.Keyless = append(e.Keyless, gaugeAddr(g))
+		}
+	}
 	e.Names = []string{"abcde.jkl", "ab.ibc", "x.jkl"}
 	for _, f := range w.c.App.FileTreeKeeper.GetAllFiles(w.f.Ctx) {
 		e.Strings = append(e.Strings, f.Address, f.Owner)
@@ -128,6 +134,9 @@ func c05Drive(rt *rapid.T, w *c05World, exec func(sdk.Msg) string, boundary func
 			m := &storagetypes.MsgBuyStorage{Creator: a.Bech, ForAddress: a.Bech, PaymentDenom: "ujkl",
 				DurationDays: rapid.SampledFrom([]int64{30, 365, 3650}).Draw(rt, "days"),
 				Bytes:        rapid.SampledFrom([]int64{1_000_000_000, 5_000_000_000_000, math.MaxInt64 / 4, math.MaxInt64}).Draw(rt, "bytes")}
+			// the referrer is any valid address: another account, or an address nobody holds a key for (a gauge account)
+			refs := append([]string{"", "", w.accs[rapid.IntRange(0, 5).Draw(rt, "referrer")].Bech}, w.env.Keyless...)
+			m.Referral = refs[rapid.IntRange(0, len(refs)-1).Draw(rt, "referral")]
 			w.logf("%s -> %s", msgSummary(m), exec(m))
 		},
 		"initProvider": func(rt *rapid.T) {
